@@ -831,6 +831,8 @@ func (x *vConnRun) reconnected(c *vConnC) *vConnC {
 
 func (x *vConnRun) droppedDespiteReconnect(tok int, c *vConnC, what string) {
 	if r := x.reconnected(c); r != nil {
+		// the same fact from the requester's side (C03): the request gets NO terminal reply although its client is connected
+		x.report("C03:no-terminal-reply:dropped-despite-reconnect", fmt.Sprintf("%s (token %d): the request was issued on connection %d (client id %d); its terminal reply was dropped although open connection %d holds that id — the requester never hears of it", what, tok, c.idx, c.cid, r.idx))
 		x.report("C18:reply-dropped-despite-reconnect", fmt.Sprintf("%s (token %d) of closed connection %d, which announced client id %d, was dropped although open connection %d announced the same id (and still holds it)", what, tok, c.idx, c.cid, r.idx))
 	}
 }
@@ -1602,6 +1604,10 @@ func (x *vConnRun) chain(hops, replies, order int) {
 
 func (x *vConnRun) step() {
 	r := x.r
+	if r.Intn(40) == 0 {
+		_ = x.v.slock.checkServerProtocolSession() // the periodic session sweep: not an event of the model (neutral on the unchanged code)
+		x.out.stat("session-check")
+	}
 	if !x.chained && x.nticks < 12 && len(x.conns) < 5 && r.Intn(25) == 0 {
 		x.chain(-1, -1, -1)
 		return
@@ -2172,7 +2178,44 @@ func init() {
 		// one reply (and adopts the first connection's proxy), closes, the third connection must get the next ones
 		func(x *vConnRun) { x.chain(2, 1, 0) },
 		// 12: the same, half-open order (the new connection announces the id before the old one is ended)
-		func(x *vConnRun) { x.chain(3, 1, 1) })
+		func(x *vConnRun) { x.chain(3, 1, 1) },
+		// 13: FIVE dead connections of one client id, each leaving two queued requests; the sixth connection receives the first
+		// reply of each (and adopts five reply proxies: more than the four the periodic session check lets a connection keep);
+		// the session check (SLock.checkServerProtocolSession, the 120 s sweep — semantically neutral: trimmed proxies fall back to
+		// the routing by client id) runs; the sixth connection closes, a seventh announces the id and must receive the second replies
+		func(x *vConnRun) { x.manyProxies() })
+}
+
+// manyProxies: see corpus case 13. The session check is not an event of the model: on the unchanged code it changes nothing a client
+// can see.
+func (x *vConnRun) manyProxies() {
+	x.chained = true
+	x.nextCid++
+	cid := 100 + x.nextCid
+	o := x.open('b', false)
+	for i := 0; i < 5 && x.dead == ""; i++ {
+		c := x.open('b', false)
+		x.init(c, cid)
+		h := x.request(o, 'L', x.newKey(), 0, 0, 90)
+		x.toks[h].long, x.toks[h].pin = true, true
+		x.request(c, 'L', x.toks[h].key, 0, 4, 60)  // first reply (TIMEOUT) at +4 s: the sixth connection is current by then
+		x.request(c, 'L', x.toks[h].key, 0, 12, 60) // second reply at +12 s: the seventh connection is current by then
+		x.close(c, 'c')
+	}
+	six := x.open('b', false)
+	x.init(six, cid)
+	for i := 0; i < 6 && x.dead == ""; i++ {
+		x.tick()
+	}
+	_ = x.v.slock.checkServerProtocolSession()
+	x.out.stat("session-check-with-more-than-4-proxies")
+	x.close(six, 'c')
+	seven := x.open('b', false)
+	x.init(seven, cid)
+	for i := 0; i < 9 && x.dead == ""; i++ {
+		x.tick()
+	}
+	x.out.stat("chain-many-proxies")
 }
 
 func vConnChild(seed int64, idx int, parent *vOut) {
